@@ -67,7 +67,8 @@ S.Cell._find_placements = _find_wrap
 # --------------------------------------------------------------------------
 # menus
 
-RES = {'0': [0, 0, 0], '222': [2, 2, 2], '422': [4, 2, 2]}
+RES = {'0': [0, 0, 0], '222': [2, 2, 2], '422': [4, 2, 2],
+       '202': [2, 0, 2]}
 
 
 def _node_menu(ranks, adjs, ress, mus):
@@ -114,6 +115,17 @@ NODE_MENUS = {
     'N0': [[[0, 0, 0], 100, 0, None],
            [[2, 2, 2], 0, 0, 2],
            [[4, 2, 2], 100, 10, None]],
+    # reservation in some but not all dimensions ([2,0,2]): every demand of
+    # the menus has a component in the unreserved dimension, so by the
+    # statement no instance is within the reservation (not in EVERY dimension)
+    # and every instance is beyond a finite cap (cumulative > cap * 0 in SOME
+    # dimension); with adjustment 10 so that a wrong boost shows: 2 x 3 = 6
+    'NP': _node_menu((50, 100), (10,), ('202',), (None, 1, 2)),
+    # partial reservations next to ordinary tenants
+    'NQ': [[[0, 0, 0], 100, 0, None],
+           [[2, 0, 2], 100, 10, 1],
+           [[2, 0, 2], 50, 10, 2],
+           [[2, 2, 2], 100, 10, 1]],
     # the two capped reservations of NS (ranks 100-10 and 50)
     'N2': [[[2, 2, 2], 100, 10, 1],
            [[2, 2, 2], 50, 0, 2]],
@@ -168,7 +180,9 @@ SLICES = {
         (1, 2, 'NF', 'IF', 1),
         (1, 3, 'N1', 'ID', 3),
         (1, 2, 'NZ', 'IF', 1),
+        (1, 2, 'NP', 'IF', 1),
         (2, 2, 'N0', 'IS', 1),
+        (2, 2, 'NQ', 'IS', 1),
         (2, 2, 'NM', 'IS', 1),
         (2, 2, 'NS', 'IF', 1),
         (2, 3, 'NS', 'IS', 3),
@@ -179,7 +193,9 @@ SLICES = {
         (1, 3, 'NF', 'IF', 1),
         (1, 4, 'N1', 'IE', 4),
         (1, 3, 'NZ', 'IF', 1),
+        (1, 3, 'NP', 'IF', 1),
         (2, 2, 'N0', 'IF', 1),
+        (2, 2, 'NQ', 'IF', 1),
         (2, 2, 'NM', 'IF', 1),
         (2, 2, 'NF', 'IS', 1),
         (2, 3, 'NS', 'IM', 3),
